@@ -226,7 +226,7 @@ impl Sub for VerifierAgreement {
         let spike = prop_oneof![2 => Just(0i64), 6 => prop_oneof![Just(127i64), Just(128), Just(255), Just(256), Just(511), Just(512), Just(1023), Just(1024), Just(-1024), Just(1025), Just(1500), Just(-1999), Just(2046), Just(2047), Just(-2047)], 2 => -2047i64..=2047];
         (prop_oneof![Just(512usize), Just(1024usize)], gen::message_strategy(), any::<u64>(), prop_oneof![Just(30.0f64), Just(165.0f64)], delta, spike)
             .prop_filter_map("forged-key construction failed", |(n, msg, seed, s2_sigma, delta, s2_spike)| {
-                let spec = crate::c02::ForgeSpec { n, msg: msg.clone(), seed, s2_sigma, delta, edge: 0, s2_spike, wrap_last: false, neg_zero_last: false, s1_pattern: None };
+                let spec = crate::c02::ForgeSpec { n, msg: msg.clone(), seed, s2_sigma, delta, edge: 0, s2_spike, wrap_last: false, neg_zero_last: false, s1_pattern: None, fill_to_end: None };
                 crate::c02::forge(&spec).map(|(sig, pk)| AgreeCase { n, msg: Hex(msg), sig: Hex(sig), pk: Hex(pk) })
             })
             .boxed()
